@@ -102,6 +102,42 @@ def admissibleB (I : MajorInst) (k : String → Nat) : Bool :=
   (I.positions.all fun pos =>
       decide (((I.novelOf k).filter fun m => m.pos == pos && !m.isIns).length ≤ 1))
 
+
+/-! ### correspondence of two major-stage instances (two builds of one sample), decided -/
+
+def piOf (l : List (Mut × Mut)) (m : Mut) : Mut := (l.lookup m).getD m
+def rhoOf (l : List (Int × Int)) (p : Int) : Int := (l.lookup p).getD p
+
+def sameAlleleB (π : Mut → Mut) (a b : MajorA) : Bool :=
+  b.name == a.name && b.cnConfig == a.cnConfig && b.func.isPerm (a.func.map π)
+
+def zipAll {α : Type} (r : α → α → Bool) : List α → List α → Bool
+  | [], [] => true
+  | a :: as, b :: bs => r a b && zipAll r as bs
+  | _, _ => false
+
+/-- the clauses of `MajorCorr` (Props/C13Spec), decided -/
+def majorCorrClauses (I J : MajorInst) (πl : List (Mut × Mut)) (ρl : List (Int × Int)) : List (String × Bool) :=
+  let π := piOf πl
+  let ρ := rhoOf ρl
+  [("alleles", zipAll (sameAlleleB π) I.alleles J.alleles),
+   ("cn", J.cn.solution == I.cn.solution),
+   ("novelPenalty", decide (J.majorNovel = I.majorNovel)),
+   ("funcs", J.funcMuts.isPerm (I.funcMuts.map π)),
+   ("sites", J.positions.isPerm (I.positions.map ρ)),
+   ("carries", I.alleles.all fun a => I.funcMuts.all fun m => (a.func.map π).contains (π m) == a.func.contains m),
+   ("atSite", I.alleles.all fun a => I.positions.all fun p =>
+      ((a.func.map π).any fun ma => ma.pos == ρ p && !ma.isIns) == (a.func.any fun ma => ma.pos == p && !ma.isIns)),
+   ("mutSite", I.funcMuts.all fun m => I.positions.all fun p =>
+      ((π m).pos == ρ p && !(π m).isIns) == (m.pos == p && !m.isIns)),
+   ("obsVar", I.funcMuts.all fun m => decide (J.observed (π m) = I.observed m)),
+   ("obsRef", I.positions.all fun p => decide (J.observed (refMut (ρ p)) = I.observed (refMut p))),
+   ("copies", I.alleles.all fun a => I.positions.all fun p =>
+      J.gene.hasCoverage a.name (ρ p) == I.gene.hasCoverage a.name p)]
+
+def majorCorrB (I J : MajorInst) (πl : List (Mut × Mut)) (ρl : List (Int × Int)) : Bool :=
+  (majorCorrClauses I J πl ρl).all (·.2)
+
 end MajorInst
 
 /-! ### minor stage -/
